@@ -76,7 +76,7 @@ var c16GlobalsOnce sync.Once
 
 // global registrations are irreversible: done once per child process, under names reserved here.
 // "email" and "ipv6" replace built-ins globally (global ∩ built-in).
-var c16Globals = map[string]string{"g_only": "fn_global_g_only", "g_both": "fn_global_g_both", "email": "fn_global_email", "ipv6": "fn_global_ipv6", "g_all": "fn_global_g_all"}
+var c16Globals = map[string]string{"g_only": "fn_global_g_only", "g_both": "fn_global_g_both", "email": "fn_global_email", "ipv6": "fn_global_ipv6", "g_all": "fn_global_g_all", "G_Mixed": "fn_global_G_Mixed"}
 
 func c16RegisterGlobals() {
 	c16GlobalsOnce.Do(func() {
@@ -134,6 +134,14 @@ func c16Outer(rng *rand.Rand, depth int) *C16Outer {
 	}
 	if len(o.Oths) > 0 && rng.Intn(4) == 0 {
 		o.Oths = append(o.Oths, o.Oths[0]) // the same pointer twice in one slice
+	}
+	if len(o.Oths) > 0 && rng.Intn(4) == 0 {
+		// a nil element is skipped; the elements after it are judged like the ones before it
+		k := rng.Intn(len(o.Oths))
+		o.Oths = append(o.Oths[:k:k], append([]*C16Other{nil}, o.Oths[k:]...)...)
+	}
+	if o.ReqM != nil && rng.Intn(4) == 0 {
+		o.ReqM["a-nil"] = nil
 	}
 	return o
 }
@@ -303,14 +311,14 @@ func c16Flat(res *core.Result, rng *rand.Rand, idx int) {
 		env.Global[n] = ref.FnModel{Marker: m}
 	}
 	local := valid.Name2FnMap{}
-	for _, name := range []string{"phone", "int", "g_both", "g_all", "email", "l_only"} {
+	for _, name := range []string{"phone", "int", "g_both", "g_all", "email", "l_only", "noDigit", "IsAdmin", "G_Mixed"} {
 		if rng.Intn(2) == 0 {
 			m := "fn_local_" + name
 			local[name] = markerFn(m)
 			env.Local[name] = ref.FnModel{Marker: m}
 		}
 	}
-	names := []string{"phone", "int", "g_both", "g_all", "email", "l_only", "g_only", "ipv6", "nosuch_fn", "ip", "to=1~3|m_to"}
+	names := []string{"phone", "int", "g_both", "g_all", "email", "l_only", "g_only", "ipv6", "nosuch_fn", "ip", "to=1~3|m_to", "noDigit", "IsAdmin", "G_Mixed", "NoSuch_Fn"}
 	items := []string{}
 	for k := 0; k < 1+rng.Intn(4); k++ {
 		items = append(items, names[rng.Intn(len(names))])
@@ -374,7 +382,7 @@ func c16Case(res *core.Result, rng *rand.Rand, idx int) {
 	useFns := rng.Intn(3) != 0
 	if useFns {
 		for _, cand := range []struct{ name, class string }{
-			{"phone", "local+builtin"}, {"int", "local+builtin"}, {"g_both", "local+global"}, {"g_all", "local+global"}, {"email", "local+global+builtin"}, {"l_only", "local"}, {"required", "local+builtin"}, {"exist", "local+builtin"},
+			{"phone", "local+builtin"}, {"int", "local+builtin"}, {"g_both", "local+global"}, {"g_all", "local+global"}, {"email", "local+global+builtin"}, {"l_only", "local"}, {"noDigit", "local"}, {"IsAdmin", "local"}, {"G_Mixed", "local+global"}, {"required", "local+builtin"}, {"exist", "local+builtin"},
 		} {
 			if rng.Intn(3) == 0 {
 				m := "fn_local_" + cand.name
@@ -383,7 +391,7 @@ func c16Case(res *core.Result, rng *rand.Rand, idx int) {
 				res.Count("collision|" + cand.class)
 			}
 		}
-		fnNames = []string{"phone", "int", "g_both", "g_all", "email", "l_only", "g_only", "ipv6", "nosuch_fn", "ip"}
+		fnNames = []string{"phone", "int", "g_both", "g_all", "email", "l_only", "g_only", "ipv6", "nosuch_fn", "ip", "noDigit", "IsAdmin", "G_Mixed", "NoSuch_Fn"} // names are taken as written: letter case included
 		res.Count("collision|global+builtin") // email / ipv6 are always registered globally over the built-ins
 	}
 	layouts := []string{"none", "unscoped", "scoped-inner", "scoped-outer", "scoped-both", "unscoped+scoped-inner", "unscoped+empty-scoped-outer", "scoped-two-inner"}
